@@ -280,6 +280,45 @@ def check(ctx, rep):
         rep.expect('R18.h', sync_, 'Time::clear|marks-before-return', 'the id is inserted into the cleared set in the body of clear(), on every path',
                    'legacy Time::clear returns before the id is in the cleared-timer set (the insert moved into the spawned task, or is conditional): a timer '
                    'started and cleared in one update is polled first, sends NotifyAt / NotifyAfter and then Clear')
+    # R18.i (legacy capability API): timer ids are process-wide and every `map_event` / `Time::new` makes a new `Time` value, so "cleared only
+    # if the app cleared it — and then it does report cleared" needs ONE cleared set per process: the set clear() marks and the set every
+    # TimerFuture consults are the same static (seeded: the set moved into an Arc field created by Time::new, which map_event calls — a clear
+    # issued through another instance than the one that started the timer is lost)
+    rep.rule('R18.i', 'legacy Time::clear and TimerFuture::poll use one process-wide cleared set (the same static)', floor=1)
+    _ID = [('std::sync::poison::mutex::Mutex::lock', 0), ('std::sync::poison::rwlock::RwLock::write', 0), ('std::sync::poison::rwlock::RwLock::read', 0),
+           ('core::result::Result::unwrap', 0), ('core::result::Result::expect', 0), ('core::ops::deref::DerefMut::deref_mut', 0),
+           ('core::ops::deref::Deref::deref', 0), ('core::result::Result::unwrap_or_else', 0)]
+    _SETOPS = ['std::collections::hash::set::HashSet::insert', 'std::collections::hash::set::HashSet::remove', 'std::collections::hash::set::HashSet::contains',
+               'std::collections::hash::set::HashSet::take', 'alloc::collections::btree::set::BTreeSet::insert', 'alloc::collections::btree::set::BTreeSet::remove',
+               'alloc::collections::btree::set::BTreeSet::contains', 'alloc::collections::btree::set::BTreeSet::take']
+
+    def _set_roots(fns):
+        roots, n = set(), 0
+        for g in fns:
+            for bb, t in g.calls(*_SETOPS):
+                if 'TimerId' not in ' '.join(t.get('targs') or []) + (t['args'][0].get('t') or ''):
+                    continue
+                n += 1
+                os_ = origins(g, t['args'][0], extra_identity=_ID)
+                if not os_:
+                    roots.add('?')
+                for o in os_:
+                    roots.add('static ' + o.static if o.kind == 'const' and o.static else
+                              ('field of a value (%s %s)' % (o.kind, ''.join(getattr(o, 'suffix', []) or []))))
+        return roots, n
+    if len(clears_) == 1:
+        fam_c = [clears_[0]] + time.closures_of(clears_[0])
+        polls_ = [f for f in time.built if path_matches(f.assoc.get('self_adt'), 'crux_time::TimerFuture') and f.name in ('poll', 'poll_next')]
+        fam_p = [g for f in polls_ for g in [f] + time.closures_of(f)]
+        rc, nc = _set_roots(fam_c)
+        rp, np_ = _set_roots(fam_p)
+        same = nc > 0 and np_ > 0 and len(rc) == 1 and rc == rp and all(r.startswith('static ') for r in rc)
+        rep.expect('R18.i', same, 'cleared-set|one-per-process', 'clear() marks and TimerFuture::poll consults %s' % sorted(rc),
+                   'the cleared-timer set written by legacy Time::clear (%s, %d site(s)) and the one read by TimerFuture::poll (%s, %d site(s)) are not one '
+                   'process-wide static: a timer started through one Time value and cleared through another (every map_event makes a new one) never '
+                   'learns that it was cleared and reports elapsed' % (sorted(rc), nc, sorted(rp), np_))
+    else:
+        rep.missing('R18.i', 'crux_time::Time::clear')
     rep.assume('futures oneshot: a Receiver whose Sender was dropped reports is_terminated and is skipped by select_biased!')
     rep.assume('NOT DECIDED: every interleaving of fire / clear / drop / late answers; the legacy API after the outcome')
 
